@@ -208,9 +208,45 @@ def evaluate(op, recs, summ):
     return viols
 
 
+ENUM_VOCAB = [("PUSH", "0"), ("PUSH", "1"), ("DUP1", None), ("DUP2", None), ("SWAP1", None), ("POP", None), ("ADD", None), ("SUB", None),
+              ("MUL", None), ("AND", None), ("ISZERO", None), ("EQ", None), ("LT", None), ("XOR", None), ("NOT", None), ("MSTORE", None),
+              ("MLOAD", None), ("SLOAD", None), ("SSTORE", None)]
+
+
+def enum_task(spec, summ):
+    """Small-scope sweep: every block of at most three instructions over ENUM_VOCAB that starts with the task's instruction
+    (operands come from the input stack), front-end only; bounds judged by the brute-force search alone."""
+    first = ENUM_VOCAB[spec["index"] - SWEEP_TASKS]
+    blocks = [[first]] + [[first, a] for a in ENUM_VOCAB] + [[first, a, b] for a in ENUM_VOCAB for b in ENUM_VOCAB]
+    flags = ["-length"] + (["-push0"] if spec["index"] % 2 else [])
+    op = {"argv": flags, "blocks": [AJ.items_to_text(b, 2) for b in blocks]}
+    st, specs = procs.run_sut(pipe.run_specs, op, cpu_s=600)
+    if st != "ok":
+        summ["inconclusive"] = 1
+        return []
+    recs = []
+    for text, r in zip(op["blocks"], specs):
+        if "exc" in r or len(r["sfs"]) != 1:
+            continue
+        (key, sfs), = r["sfs"].items()
+        recs.append({"sfs": sfs, "results": [], "greedy": None, "sub_block": None, "key": key, "block_text": text})
+    summ["probes"]["enumerated_blocks"] = len(recs)
+    return evaluate({"argv": flags + ["-solver", "z3"], "max_len": 6}, recs, summ)
+
+
 def task(spec):
-    op = build(spec)
     summ = {"evals": 0, "keys": [], "probes": {}, "faults": {}, "sim_s": 0.0, "samples": [], "harness": 0, "inconclusive": 0}
+    if SWEEP_TASKS <= spec["index"] < SWEEP_TASKS + len(ENUM_VOCAB):
+        viols = enum_task(spec, summ)
+        seen = set()
+        out = []
+        for v in viols:
+            if tuple(v["class"]) not in seen:
+                seen.add(tuple(v["class"]))
+                out.append(v)
+        summ["violations"] = out[:3]
+        return summ
+    op = build(spec)
     st, recs = procs.run_sut(pipe.run_solve, op, cpu_s=400)
     if st != "ok":
         summ["inconclusive"] = 1
